@@ -32,8 +32,11 @@ def gen_project(rng, nmods=None, rich=True):
     for nm in names:
         for pk in PKG_INITS.get(nm, []):
             if not any(m['name'] == pk for m in mods):
-                mods.append({'name': pk, 'version': 1, 'iface': {'classes': [], 'funcs': [], 'insts': [], 'multis': []},
-                             'items': [], 'init': True})
+                # a package may define an attribute under a name that a later created sub-module can take
+                attrs = ['zqattr_' + short(pk)] if rng.random() < 0.5 else []
+                mods.append({'name': pk, 'version': 1,
+                             'iface': {'classes': [], 'funcs': [], 'insts': [], 'multis': [], 'attrs': attrs},
+                             'items': [['assign', a, repr('attribute ' + a)] for a in attrs], 'init': True})
         mods.append(new_module(rng, nm, mods))
     # package __init__ files may re-export from their own sub-modules (only ones that import nothing from the package)
     spec = {'modules': mods}
@@ -99,6 +102,10 @@ def fill_module(rng, mod, earlier):
     if rng.random() < 0.25:
         # optional dependency that may or may not exist (created later in C09 histories)
         items.append(['tryimport', 'zqlate_' + s])
+    attr_pkgs = [m for m in earlier if m.get('init') and m['iface'].get('attrs')]
+    if attr_pkgs and rng.random() < 0.4:
+        pk = rng.choice(attr_pkgs)
+        items.append(['from', pk['name'], rng.choice(pk['iface']['attrs']), None])
     pkgs = [m['name'] for m in earlier if m.get('init')]
     if pkgs and rng.random() < 0.25:
         # optional sub-module of an existing package, imported as an attribute of the package
@@ -143,6 +150,10 @@ def fill_module(rng, mod, earlier):
         else:
             ret = repr('s_%s' % tag)
         items.append(['func', f, ret])
+    if ctor_pool and rng.random() < 0.5:
+        # a function whose result is a loop-carried, multiply-bound name
+        a, b = rng.choice(ctor_pool), rng.choice(ctor_pool)
+        items.append(['lfunc', 'l0_' + s, a + '()', b + '()', rng.choice(('for', 'while'))])
     cyc = mod['iface'].get('cyc') or []
     for i, f in enumerate(cyc):
         other = cyc[(i + 1) % len(cyc)]
@@ -208,6 +219,20 @@ def render(mod):
                     else:
                         out.append('        self.%s = %r' % (a, a))
                 out.append('        return %s' % (meth[2] if len(meth) > 2 else 'self'))
+            out.append('')
+        elif k == 'lfunc':
+            out.append("def %s(xs=()):" % it[1])
+            out.append('    h = None')
+            out.append('    for x in xs:' if it[4] == 'for' else '    while xs:')
+            out.append('        if x:' if it[4] == 'for' else '        if h:')
+            out.append('            h = %s' % it[2])
+            out.append('        else:')
+            out.append('            return h')
+            out.append('        xs = xs[1:]')
+            out.append('    else:')
+            out.append('        h = %s' % it[3])
+            out.append('    h.closed = True')
+            out.append('    return h')
             out.append('')
         elif k == 'cfunc':
             out.append("def %s(s=''):" % it[1])
@@ -275,7 +300,11 @@ def origins(spec):
                 tgt = it[1]
                 if tgt.startswith('.'):
                     tgt = m['name'].rpartition('.')[0] + tgt
-                o[it[3] or it[2]] = out.get(tgt, {}).get(it[2], tgt)
+                if it[2].startswith('zqattr_'):
+                    # an attribute of a package that a sub-module of the same name may take over
+                    o[it[3] or it[2]] = tgt + '.' + it[2]
+                else:
+                    o[it[3] or it[2]] = out.get(tgt, {}).get(it[2], tgt)
             elif k == 'star':
                 for n, src in out.get(it[1], {}).items():
                     if not n.startswith('_'):
@@ -286,7 +315,7 @@ def origins(spec):
                 o[it[1]] = it[1]
             elif k == 'tryfrom':
                 o[it[2]] = it[1] + '.' + it[2]
-            elif k in ('class', 'func', 'cfunc', 'assign', 'multi'):
+            elif k in ('class', 'func', 'cfunc', 'lfunc', 'assign', 'multi'):
                 o[it[1]] = m['name']
         out[m['name']] = o
     return out
@@ -325,7 +354,7 @@ def exports(spec):
                         add(n, kind)
             elif k == 'class':
                 add(it[1], 'class')
-            elif k in ('func', 'cfunc'):
+            elif k in ('func', 'cfunc', 'lfunc'):
                 add(it[1], 'func')
             elif k == 'assign':
                 add(it[1], 'inst' if it[2].endswith('()') else 'var')
@@ -402,6 +431,14 @@ def gen_request(rng, spec, kinds=('assist', 'location', 'lint'), uid=None, targe
         ref = name
         modref = None
 
+    if rng.random() < 0.3:
+        # the buffer imports other project modules as well (several importers analysed in one request)
+        others = [x['name'] for x in mods if x['name'] != mname]
+        rng.shuffle(others)
+        for o in others[:rng.choice((1, 2, 3))]:
+            head.insert(len(head) - 1, rng.choice(('import %s', 'from %s import *')) % o)
+    if rng.random() < 0.03 and filename == 'zqmain.py':
+        head.insert(len(head) - 1, 'from . import %s' % short(mname))      # relative import outside a package
     if kind == 'assist':
         shape = rng.choice(('attr', 'attr', 'call', 'module', 'name', 'import', 'inherit', 'deep', 'chain', 'chain'))
         if shape == 'chain' and nkind in ('class', 'func', 'inst', 'multi'):
@@ -488,6 +525,8 @@ def mutate_module(rng, spec, idx):
                     it[0] in ('import', 'from', 'star') for it in x['items']):
                 items.append(['from', '.' + short(x['name']), rng.choice(x['iface']['classes']), None])
         items.append(['assign', 'x_%s_v%d' % (short(m['name']), nm['version']), str(nm['version'])])
+        for a in m['iface'].get('attrs') or []:
+            items.append(['assign', a, repr('attribute %s v%d' % (a, nm['version']))])
         nm['items'] = items
         return nm
     return fill_module(rng, m, mods[:idx])
